@@ -9,7 +9,11 @@ TEXT = {
  "C04": ("fault_enumeration", "every single cut point of the observed client->server and server->client streams of every protocol/cipher cell (plus byte-at-a-time, seeded multi-cut and, thorough, sampled pairs), delivered by a man-in-the-middle node to the real server/client with quiescence after each piece; oracle = same address, same plaintext, no error, nothing withheld at quiescence. Exhaustive over single cuts of the sampled streams, sampled over streams.", "DESIGN.md 4/C04"),
  "C05": ("fault_enumeration", "a bit flip in every byte position, truncation, deletion, duplication, insertion, multi-byte edits and reflection applied by a man-in-the-middle node to the real streams between real client and server; oracle = released bytes are a prefix and (Shadowsocks) never exceed what an untampered stream cut at the tampered byte releases. Exhaustive over positions of the sampled streams.", "DESIGN.md 4/C05"),
 }
+TEXT["C13"] = ("fault_enumeration", "every single cut point (plus multi-cuts and byte-at-a-time) of generated SOCKS5 / HTTP CONNECT / absolute-URI handshakes, well-formed and malformed, against the real client with a real server and target behind it; oracle = exact dial, conformant replies, exact payload, refusal of malformed requests. Exhaustive over single cuts of the sampled handshakes, sampled over the grammar.", "DESIGN.md 4/C13")
+TEXT["C15"] = ("fault_enumeration", "batches of concurrent flows through the real client and server, each ended by one fault of the catalogue (half-close, close, abandon, reset on either side, link cut at a byte offset, target refused / unresolvable / black-holed) at a seeded point of the transfer over tcp/tls/ws/wss; oracle on the history: closing side's data delivered, other side notified within 10 simulated seconds, sockets and tasks of both nodes back at the idle baseline.", "DESIGN.md 4/C15")
 NOTE = {
+ "C15": "trusted base as C01; 'descriptors' = simulated sockets, 'tasks' = tokio tasks attributed to a node through the runtime's spawn hooks",
+ "C13": "trusted base as C01; grammar of requests is the harness's; the application waits for each reply",
  "C01": "trusted base: the simulated kernel model (/verif/seam), harness applications/targets, tokio's scheduler; one thread per world; QUIC cells not covered",
  "C04": "trusted base as C01 plus the harness segmenter; plain tcp carrier; TLS/WebSocket re-segmentation is only sampled (C01 knobs), QUIC not covered",
  "C05": "trusted base as C01 plus the harness mutator; plain tcp carrier; VMess padding is unauthenticated by design (prefix oracle only); datagrams covered elsewhere",
